@@ -9,12 +9,14 @@ package main
 // event for that case and restarts the worker after it.
 
 import (
+	"bytes"
 	"encoding/json"
 	"fmt"
 	"os"
 	"os/exec"
 	"strconv"
 	"strings"
+	"time"
 )
 
 func atoi(s string) int {
@@ -37,6 +39,7 @@ var mains = map[string]func(map[string]string){
 	"c11": c11Main,
 	"c13": c13Main,
 	"c19": c19Main,
+	"c20": c20Main,
 }
 
 var startAt int // first case index the worker executes
@@ -69,8 +72,11 @@ func main() {
 	start, crashes := 0, 0
 	for {
 		cmd := exec.Command(os.Args[0], append(append([]string{os.Args[1]}, os.Args[2:]...), "worker=1", fmt.Sprintf("start=%d", start))...)
-		outb, err := cmd.CombinedOutput()
-		if err == nil && strings.Contains(string(outb), "WORKER-OK") {
+		outb, killed, err := runWatched(cmd, args["out"]+".cur")
+		if killed != "" {
+			outb = append(outb, []byte("\nWORKER KILLED BY SUPERVISOR: "+killed+"\n")...)
+		}
+		if err == nil && killed == "" && strings.Contains(string(outb), "WORKER-OK") {
 			fmt.Print(strings.Replace(string(outb), "WORKER-OK\n", "", 1))
 			break
 		}
@@ -101,6 +107,58 @@ func main() {
 	}
 	fmt.Printf("crashes=%d\n", crashes)
 	fmt.Println("DRIVE-OK")
+}
+
+// runWatched runs the worker under a watchdog: resident memory above VERIF_MEM_MB (default 6000) or a
+// case that makes no progress for VERIF_CASE_TIMEOUT_S (default 120) seconds gets the worker killed, which the
+// caller then logs as a Crash event for the case in progress (the library must not exhaust memory or hang).
+func runWatched(cmd *exec.Cmd, marker string) (out []byte, killed string, err error) {
+	var buf bytes.Buffer
+	cmd.Stdout, cmd.Stderr = &buf, &buf
+	if err = cmd.Start(); err != nil {
+		return nil, "", err
+	}
+	memMB := 6000
+	if v := os.Getenv("VERIF_MEM_MB"); v != "" {
+		memMB = atoi(v)
+	}
+	caseTO := 120
+	if v := os.Getenv("VERIF_CASE_TIMEOUT_S"); v != "" {
+		caseTO = atoi(v)
+	}
+	done := make(chan error, 1)
+	go func() { done <- cmd.Wait() }()
+	lastMark, lastChange := "", time.Now()
+	tick := time.NewTicker(100 * time.Millisecond)
+	defer tick.Stop()
+	for {
+		select {
+		case err = <-done:
+			return buf.Bytes(), killed, err
+		case <-tick.C:
+			if killed != "" {
+				continue
+			}
+			if b, e := os.ReadFile(fmt.Sprintf("/proc/%d/statm", cmd.Process.Pid)); e == nil {
+				f := strings.Fields(string(b))
+				if len(f) > 1 {
+					if rss := atoi(f[1]) * os.Getpagesize() / (1 << 20); rss > memMB {
+						killed = fmt.Sprintf("resident memory %d MB exceeds %d MB", rss, memMB)
+						cmd.Process.Kill()
+					}
+				}
+			}
+			if b, e := os.ReadFile(marker); e == nil {
+				if m := string(b[:min(len(b), 64)]); m != lastMark {
+					lastMark, lastChange = m, time.Now()
+				}
+			}
+			if killed == "" && time.Since(lastChange) > time.Duration(caseTO)*time.Second {
+				killed = fmt.Sprintf("no progress for %d s (hang)", caseTO)
+				cmd.Process.Kill()
+			}
+		}
+	}
 }
 
 func tail(s string, n int) string {
